@@ -239,13 +239,18 @@ type histCase struct {
 	H    int      `json:"h"`
 	Seed pu.HB    `json:"seed"`
 	PreW uint32   `json:"foreign_verify_w_before_keygen,omitempty"`
+	// several foreign calls in a row before key generation (a process-wide memo of "the last parameter set" needs one
+	// call to evict the default and a second, look-alike one to poison it)
+	PreWs []uint32 `json:"foreign_verify_ws_before_keygen,omitempty"`
 	Ops  []histOp `json:"ops"`
 }
 
 // foreignVerify makes a verification call with another Winternitz parameter and a signature length that is
 // well-formed for that parameter and for height h (content garbage); its own answer is irrelevant here.
 func foreignVerify(w uint32, h int, hf xmss.HashFunction) {
-	base := map[uint32]int{4: 4 + 32 + 133*32, 16: 2180, 256: 4 + 32 + 34*32}[w]
+	// 17, 5 and 300 pass the library's parameter validation as well (it truncates log2 w) and have the chain counts of
+	// 16, 4 and 256
+	base := map[uint32]int{4: 4 + 32 + 133*32, 5: 4 + 32 + 133*32, 16: 2180, 17: 2180, 256: 4 + 32 + 34*32, 300: 4 + 32 + 34*32}[w]
 	if base == 0 {
 		return
 	}
@@ -271,13 +276,16 @@ func refKey(seed []byte, h int, hf xmss.HashFunction) *xmssref.Key {
 
 func runHist(r *ev.Recorder, c *histCase, _ any) (string, string) {
 	hf := xmss.HashFunction(c.Hash)
+	for _, w := range c.PreWs {
+		foreignVerify(w, c.H, hf)
+	}
 	if c.PreW != 0 {
 		foreignVerify(c.PreW, c.H, hf)
 	}
 	x := pu.NewXMSS(c.Seed, c.H, hf)
 	ref := refKey(c.Seed, c.H, hf)
 	if pk := x.GetPK(); !bytes.Equal(pk[:], pu.RefPK(ref, hf)) {
-		return "pk/mismatch-after-history", fmt.Sprintf("hash=%s h=%d: public key differs from the reference (a verification with w=%d ran just before key generation)", pu.HashName(hf), c.H, c.PreW)
+		return "pk/mismatch-after-history", fmt.Sprintf("hash=%s h=%d: public key differs from the reference (verifications with w=%v %d ran just before key generation)", pu.HashName(hf), c.H, c.PreWs, c.PreW)
 	}
 	cur := uint32(0)
 	last := uint32(1)<<uint(c.H) - 1
@@ -401,6 +409,9 @@ func TestHistoryIndependence(t *testing.T) {
 		}
 		if rapid.IntRange(0, 2).Draw(rt, "preW") == 0 {
 			c.PreW = rapid.SampledFrom([]uint32{4, 256, 16}).Draw(rt, "preWv")
+		} else if rapid.IntRange(0, 1).Draw(rt, "preWs") == 0 {
+			c.PreWs = rapid.SliceOfN(rapid.SampledFrom([]uint32{4, 17, 256, 5, 300, 16, 17}), 2, 3).Draw(rt, "preWsv")
+			r.Count("key_generations_after_several_foreign_w_verifications", 1)
 		}
 		nops := rapid.IntRange(1, 8).Draw(rt, "nops")
 		for i := 0; i < nops; i++ {
@@ -418,13 +429,13 @@ func TestHistoryIndependence(t *testing.T) {
 			}
 			o := histOp{Jump: j, Msg: pu.Msg(200).Draw(rt, "msg")}
 			if rapid.IntRange(0, 5).Draw(rt, "foreign") == 0 {
-				o.W = rapid.SampledFrom([]uint32{4, 256}).Draw(rt, "w")
+				o.W = rapid.SampledFrom([]uint32{4, 256, 17, 5, 300}).Draw(rt, "w")
 				r.Count("steps_preceded_by_foreign_w_verification", 1)
 			}
 			c.Ops = append(c.Ops, o)
 		}
 		key, msg := runHist(r, c, nil)
-		r.Sample(map[string]any{"hash": c.Hash, "h": c.H, "jumps": jumps(c.Ops), "foreign_w_before_keygen": c.PreW})
+		r.Sample(map[string]any{"hash": c.Hash, "h": c.H, "jumps": jumps(c.Ops), "foreign_w_before_keygen": c.PreW, "foreign_ws_before_keygen": c.PreWs})
 		r.Check(rt, key == "", key, c, "%s", msg)
 	})
 }
